@@ -401,7 +401,7 @@ def run(ctx):
             spec = specs[i]
         else:
             spec = graphs.rand_spec(rng, nmax=8 if quick else 20, mmax=12 if quick else 40,
-                                    ecls=graphs.ECLS_X if i % 2 else graphs.ECLS_DU,
+                                    ecls=graphs.ECLS_X if i % 2 else graphs.ECLS_DU, vcls=graphs.VCLS_X,
                                     uni_mode="all" if rng.random() < 0.6 else "rand")
             if not spec.get("uni"):
                 spec["uni"] = [j for j in range(len(spec["verts"])) if rng.random() < 0.8] or [0]
